@@ -18,7 +18,7 @@ import numpy as np
 OPS = {'add': ('+', 1), 'sub': ('-', 1), 'mul': ('*', 2), 'div': ('/', 2), 'pow': ('**', 3)}
 
 NAME_POOL = ['Y', 'C', 'I', 'G', 'X', 'Z', 'W', 'K', 'YD', 'Cd', 'H_s', 'r', 'alpha_1', 'Total', 'tt', 'x1', 'z_',
-             'Inv', 'Net', 'q2', 'Btot', 'M', 'N', 'P', 'V', 'ttt', 'index', 'solved', 'T_t', 'E1']
+             'Inv', 'Net', 'q2', 'Btot', 'M', 'N', 'P', 'V', 'ttt', 'indexes', 'solved', 'T_t', 'E1']
 PARAM_POOL = ['a', 'b', 'beta', 'theta', 'mu_1', 'tau']
 ERROR_POOL = ['e', 'eps', 'u_t']
 
